@@ -123,14 +123,17 @@ def bracketStep (f : Flags) (tch pch : UInt8) (rest : Bytes) (prev : UInt8) (mat
 
 /-- `do { … } while (prev_ch = p_ch, (p_ch = *++p) != ']');` — `pch` = `*p`, `rest` = bytes behind `p` -/
 def bracketLoop (f : Flags) (tch : UInt8) : Nat → UInt8 → Bytes → UInt8 → Bool → BrRes
-  | 0, _, _, _, _ => .fuel
-  | n + 1, pch, rest, prev, matched =>
+  | n, pch, rest, prev, matched =>
     if pch == 0 then .abort
-    else match bracketStep f tch pch rest prev matched with
-      | none => .abort
-      | some (pch, rest, matched) =>
-        if hd rest == 93 then .done matched rest.tail
-        else bracketLoop f tch n (hd rest) rest.tail pch matched
+    else match n with
+      | 0 => .fuel
+      | n + 1 =>
+        match bracketStep f tch pch rest prev matched with
+        | none => .abort
+        | some (pch, rest, matched) =>
+          -- prev_ch = p_ch, (p_ch = *++p) != ']'
+          if hd rest == 93 then .done matched rest.tail
+          else bracketLoop f tch n (hd rest) rest.tail pch matched
 
 /-- `case '['` up to the end of the loop; `rest` = bytes behind the `[` -/
 def bracket (f : Flags) (tch : UInt8) (fuel : Nat) (rest : Bytes) : BrRes :=
